@@ -34,7 +34,10 @@ def apply_op(F, rng, s, op):
     if op == 'chan':
         k = int(rng.integers(1, D + 1))
         pos = [int(x) for x in rng.permutation(D)[:k]]
-        key = [s.channels[p] if rng.random() < 0.5 else p for p in pos]
+        if rng.random() < 0.3:
+            pos = pos + [pos[0]]            # the same channel twice (duplicate names are a reachable state)
+        uniq = len(set(s.channels)) == len(s.channels)
+        key = [s.channels[p] if (uniq and rng.random() < 0.5) else p for p in pos]
         return s[:, key] if rng.random() < 0.7 or k == 1 else s[:, slice(0, max(1, D - 1))]
     if op == 'rows':
         N = s.shape[0]
@@ -45,12 +48,17 @@ def apply_op(F, rng, s, op):
             return s[rng.random(N) < 0.7]
         return s[::2]
     if op == 'rfi':
-        return F.transform.to_rfi(s)
+        if rng.random() < 0.5:
+            return F.transform.to_rfi(s)
+        k = int(rng.integers(1, D + 1))
+        return F.transform.to_rfi(s, [int(x) for x in np.sort(rng.permutation(D)[:k])])     # some channels only, by position
     if op == 'mef':
         k = int(rng.integers(1, D + 1))
         pos = [int(x) for x in rng.permutation(D)[:k]]
         crv = [zoo.make_curve(1.0 + 0.03 * i, 1.0 + i) for i in range(k)]
-        return F.transform.to_mef(s, [s.channels[p] for p in pos], crv, [s.channels[p] for p in pos])
+        if len(set(s.channels)) == len(s.channels) and rng.random() < 0.5:
+            return F.transform.to_mef(s, [s.channels[p] for p in pos], crv, [s.channels[p] for p in pos])
+        return F.transform.to_mef(s, pos, crv, pos)
     if op == 'gate':
         if rng.random() < 0.5 or s.shape[0] < 4:
             return F.gate.high_low(s)
